@@ -2,6 +2,7 @@ import FqModel.Proto
 import FqModel.Bits
 import FqModel.Query
 import FqModel.C11Print
+import FqModel.C11Full
 /-!
   driver for C11.  Case lines (harness/cmd/c11/main.go), the observation is one JSON value:
 
@@ -161,8 +162,11 @@ def stepRW (optsName : String) (obs : JV) : String :=
                 ((foreignNames rp a).isEmpty, "foreign-name " ++ toString (foreignNames rp a))]
   finish law div
 
-/-! ### pp: the Lean parser of the operator core against the fork's parser -/
-open FqModel.C11.Print in
+/-! ### pp: the Lean parser (FqModel/C11Full.lean) against the fork's parser -/
+namespace PP
+open FqModel.C11.Full
+open FqModel.C11.Print (Op)
+
 def opOfText : String → Option Op
   | "|" => some .pipe | "," => some .comma | "//" => some .alt
   | "=" => some .upd | "|=" => some .upd | "+=" => some .upd | "-=" => some .upd | "*=" => some .upd
@@ -172,98 +176,251 @@ def opOfText : String → Option Op
   | "+" => some .add | "-" => some .sub | "*" => some .mul | "/" => some .div | "%" => some .mod
   | _ => none
 
-open FqModel.C11.Print in
+def kwOfText : String → Option Kw
+  | "null" => some .null | "true" => some .true_ | "false" => some .false_ | "if" => some .if_ | "then" => some .then_
+  | "elif" => some .elif_ | "else" => some .else_ | "end" => some .end_ | "try" => some .try_ | "catch" => some .catch_
+  | "reduce" => some .reduce | "foreach" => some .foreach | "as" => some .as_ | "label" => some .label
+  | "break" => some .break_ | "def" => some .def_ | "import" => some .import_ | "include" => some .include
+  | "module" => some .module
+  | _ => none
+
+def identLike (t : String) : Bool :=
+  !t.isEmpty && (t.front.isAlpha || t.front == '_') && t.all (fun c => c.isAlphanum || c == '_' || c == ':')
+
 def tokOfText (t : String) : Option Tok :=
   match opOfText t with
   | some o => some (.op o)
   | none =>
-    if t == "?" then some .quest
-    else if t == "(" then some .lparen
-    else if t == ")" then some .rparen
-    else if t == "if" then some (.bopen "if")
-    else if t == "then" then some .bsep
-    else if t == "end" then some .bclose
-    else if t.startsWith "as:" then some (.as_ (t.drop 3).toString)
-    else if t.startsWith "label:" then some (.label (t.drop 6).toString)
-    else if t.all (fun c => c.isAlphanum || c == '$' || c == '_') && !t.isEmpty then some (.atom t)
-    else none
+    match kwOfText t with
+    | some k => some (.kw k)
+    | none =>
+      if t == "?" then some .quest else if t == "?//" then some .destalt
+      else if t == "(" then some .lparen else if t == ")" then some .rparen
+      else if t == "[" then some .lbrack else if t == "]" then some .rbrack
+      else if t == "{" then some .lbrace else if t == "}" then some .rbrace
+      else if t == ":" then some .colon else if t == ";" then some .semi
+      else if t == "." then some .dot else if t == ".." then some .dotdot
+      else if t == "S<" then some .strStart else if t == "\\(" then some .strQuery else if t == ">S" then some .strEnd
+      else if t.length ≥ 2 && t.front == '"' && t.back == '"' then some (.str ((t.drop 1).dropEnd 1).toString)
+      else if t.front.isDigit then some (.num t)
+      else if t.length ≥ 2 && t.front == '.' && (t.get ⟨1⟩).isDigit then some (.num t)
+      else if t.length ≥ 2 && t.front == '.' && identLike (t.drop 1).toString then some (.field (t.drop 1).toString)
+      else if t.length ≥ 2 && t.front == '$' && identLike (t.drop 1).toString then some (.var t)
+      else if t.length ≥ 2 && t.front == '@' && identLike (t.drop 1).toString then some (.fmt t)
+      else if identLike t then some (.ident t)
+      else none
+
+def jstr (s : String) : JV := .str s
+def o (kvs : List (String × JV)) : JV := JV.mkObj kvs
+def typed (ty : String) (kvs : List (String × JV)) : JV := JV.mkObj (("type", .str ty) :: kvs)
 
 def addSuffix (term suffix : JV) : JV :=
   match term.get "suffix_list" with
   | .arr xs => term.set "suffix_list" (.arr (xs ++ [suffix]))
   | _ => term.set "suffix_list" (.arr [suffix])
 
-/- AST JSON of an operator tree (the fork's field names); the operator texts are taken, in print order, from the
-    token line (the tree only knows the operator class) -/
-open FqModel.C11.Print in
+def strNodeJ (s : String) : JV := if s == "" then .obj [] else .obj [("str", .str s)]
+
+def keyText (words : List String) : String := words.headD ""
+
+/-- length of the printed form -/
+def plen (e : E) : Nat := (print e).length
+
+/- AST JSON (the fork's field names) of a tree together with the words it was printed as: operator and key texts
+   are read off the words (the tree knows operator classes only) -/
 mutual
-  def termJ : E → List String → Option (JV × List String)
-    | .atom s, ops =>
-      if s.front.isDigit then some (.obj [("number", .str s), ("type", .str "TermTypeNumber")], ops)
-      else some (.obj [("func", .obj [("name", .str s)]), ("type", .str "TermTypeFunc")], ops)
-    | .paren e, ops => do
-      let (j, ops) ← queryJ e ops
-      pure (.obj [("query", j), ("type", .str "TermTypeQuery")], ops)
-    | .brack _ a b, ops => do
-      let (ja, ops) ← queryJ a ops
-      let (jb, ops) ← queryJ b ops
-      pure (.obj [("if", .obj [("cond", ja), ("then", jb)]), ("type", .str "TermTypeIf")], ops)
-    | .opt e, ops => do
-      let (t, ops) ← termJ e ops
-      pure (addSuffix t (.obj [("optional", .bool true)]), ops)
-    | .neg e, ops =>
-      match ops with
-      | o :: ops => do
-        let (t, ops) ← termJ e ops
-        pure (.obj [("type", .str "TermTypeUnary"), ("unary", .obj [("op", .str o), ("term", t)])], ops)
-      | [] => none
+  partial def strJ : E → List String → Option JV
+    | .strl s, _ => some (strNodeJ s)
+    | .istr ps, ws => do
+      let qs ← partsJ ps (ws.drop 1)
+      pure (.obj [("queries", .arr qs)])
     | _, _ => none
-  def queryJ : E → List String → Option (JV × List String)
-    | .bin _ l r, ops => do
-      let (jl, ops) ← queryJ l ops
-      match ops with
-      | o :: ops =>
-        let (jr, ops) ← queryJ r ops
-        pure (.obj [("left", jl), ("op", .str o), ("right", jr)], ops)
-      | [] => none
-    | .bind t p b, ops => do
-      let (jt, ops) ← termJ t ops
-      let (jb, ops) ← queryJ b ops
-      pure (.obj [("term", addSuffix jt (.obj [("bind", .obj [("body", jb), ("patterns", .arr [.obj [("name", .str p)]])])]))], ops)
-    | .label n b, ops => do
-      let (jb, ops) ← queryJ b ops
-      pure (.obj [("term", .obj [("label", .obj [("body", jb), ("ident", .str n)]), ("type", .str "TermTypeLabel")])], ops)
-    | e, ops => do
-      let (t, ops) ← termJ e ops
-      pure (.obj [("term", t)], ops)
+  partial def partsJ : List E → List String → Option (List JV)
+    | [], _ => some []
+    | .piece s :: rest, ws => do
+      let r ← partsJ rest (ws.drop 1)
+      pure (o [("term", typed "TermTypeString" [("str", strNodeJ s)])] :: r)
+    | .interp q :: rest, ws => do
+      let j ← queryJ q ((ws.drop 1).take (plen q))
+      let r ← partsJ rest (ws.drop (plen q + 2))
+      pure (o [("term", typed "TermTypeQuery" [("query", j)])] :: r)
+    | _ :: _, _ => none
+  partial def sepJ (f : E → List String → Option JV) : List E → List String → Option (List JV)
+    | [], _ => some []
+    | [x], ws => do pure [← f x ws]
+    | x :: rest, ws => do
+      let j ← f x (ws.take (plen x))
+      let r ← sepJ f rest (ws.drop (plen x + 1))
+      pure (j :: r)
+  partial def idxJ : E → List String → Option JV
+    | .bIdx e, ws => do pure (o [("start", ← queryJ e (ws.take (plen e)))])
+    | .bSliceL e, ws => do pure (o [("start", ← queryJ e (ws.take (plen e))), ("is_slice", .bool true)])
+    | .bSliceR e, ws => do pure (o [("end", ← queryJ e ((ws.drop 1).take (plen e))), ("is_slice", .bool true)])
+    | .bSlice a b, ws => do
+      pure (o [("start", ← queryJ a (ws.take (plen a))), ("end", ← queryJ b ((ws.drop (plen a + 1)).take (plen b))),
+               ("is_slice", .bool true)])
+    | _, _ => none
+  partial def suffixBrJ (b : E) (ws : List String) : Option JV :=
+    match b with
+    | .bIter => some (o [("iter", .bool true)])
+    | _ => do pure (o [("index", ← idxJ b ws)])
+  partial def optValJ (base : List (String × JV)) (v : Option E) (ws : List String) : Option JV :=
+    match v with
+    | none => some (o base)
+    | some v => do pure (o (base ++ [("val", ← queryJ v ws)]))
+  partial def entryJ : E → List String → Option JV
+    | .kvKey _ v, ws => optValJ [("key", .str (keyText ws))] v (ws.drop 2)
+    | .kvStr s v, ws => do
+      let sj ← strJ s (ws.take (plen s))
+      optValJ [("key_string", sj)] v (ws.drop (plen s + 1))
+    | .kvQ q v, ws => do
+      let qj ← queryJ q ((ws.drop 1).take (plen q))
+      let vj ← queryJ v (ws.drop (plen q + 3))
+      pure (o [("key_query", qj), ("val", vj)])
+    | _, _ => none
+  partial def patJ : E → List String → Option JV
+    | .pvar s, _ => some (o [("name", .str s)])
+    | .parr ps, ws => do pure (o [("array", .arr (← sepJ patJ ps ((ws.drop 1).dropLast)))])
+    | .pobj es, ws => do pure (o [("object", .arr (← sepJ patEntryJ es ((ws.drop 1).dropLast)))])
+    | _, _ => none
+  partial def patEntryJ : E → List String → Option JV
+    | .peVar s, _ => some (o [("key", .str s)])
+    | .peKey _ p, ws => do pure (o [("key", .str (keyText ws)), ("val", ← patJ p (ws.drop 2))])
+    | .peStr s p, ws => do
+      pure (o [("key_string", ← strJ s (ws.take (plen s))), ("val", ← patJ p (ws.drop (plen s + 1)))])
+    | .peQ q p, ws => do
+      pure (o [("key_query", ← queryJ q ((ws.drop 1).take (plen q))), ("val", ← patJ p (ws.drop (plen q + 3)))])
+    | _, _ => none
+  partial def elifsJ : List E → List String → Option (List JV)
+    | [], _ => some []
+    | .elif c t :: rest, ws => do
+      let cj ← queryJ c ((ws.drop 1).take (plen c))
+      let tj ← queryJ t ((ws.drop (plen c + 2)).take (plen t))
+      let r ← elifsJ rest (ws.drop (plen c + plen t + 2))
+      pure (o [("cond", cj), ("then", tj)] :: r)
+    | _ :: _, _ => none
+  partial def termJ : E → List String → Option JV
+    | .num s, _ => some (typed "TermTypeNumber" [("number", .str s)])
+    | .strl s, _ => some (typed "TermTypeString" [("str", strNodeJ s)])
+    | .istr ps, ws => do pure (typed "TermTypeString" [("str", ← strJ (.istr ps) ws)])
+    | .ident s, _ => some (typed "TermTypeFunc" [("func", o [("name", .str s)])])
+    | .var s, _ => some (typed "TermTypeFunc" [("func", o [("name", .str s)])])
+    | .call s as, ws => do
+      let js ← sepJ queryJ as ((ws.drop 2).dropLast)
+      pure (typed "TermTypeFunc" [("func", o [("name", .str s), ("args", .arr js)])])
+    | .field s, _ => some (typed "TermTypeIndex" [("index", o [("name", .str s)])])
+    | .dot, _ => some (typed "TermTypeIdentity" [])
+    | .dotdot, _ => some (typed "TermTypeRecurse" [])
+    | .dotStr s, ws => do pure (typed "TermTypeIndex" [("index", o [("str", ← strJ s (ws.drop 1))])])
+    | .dotIdx b, ws =>
+      match b with
+      | .bIter => some (typed "TermTypeIdentity" [("suffix_list", .arr [o [("iter", .bool true)]])])
+      | _ => do pure (typed "TermTypeIndex" [("index", ← idxJ b (ws.drop 2))])
+    | .lit .null, _ => some (typed "TermTypeNull" [])
+    | .lit .true_, _ => some (typed "TermTypeTrue" [])
+    | .lit .false_, _ => some (typed "TermTypeFalse" [])
+    | .lit _, _ => none
+    | .fmt s, _ => some (typed "TermTypeFormat" [("format", .str s)])
+    | .fmtS s sv, ws => do pure (typed "TermTypeFormat" [("format", .str s), ("str", ← strJ sv (ws.drop 1))])
+    | .arr none, _ => some (typed "TermTypeArray" [("array", .obj [])])
+    | .arr (some q), ws => do pure (typed "TermTypeArray" [("array", o [("query", ← queryJ q ((ws.drop 1).dropLast))])])
+    | .obj [], _ => some (typed "TermTypeObject" [("object", .obj [])])
+    | .obj kvs, ws => do
+      pure (typed "TermTypeObject" [("object", o [("key_vals", .arr (← sepJ entryJ kvs ((ws.drop 1).dropLast)))])])
+    | .neg e, ws => do pure (typed "TermTypeUnary" [("unary", o [("op", .str "-"), ("term", ← termJ e (ws.drop 1))])])
+    | .pos e, ws => do pure (typed "TermTypeUnary" [("unary", o [("op", .str "+"), ("term", ← termJ e (ws.drop 1))])])
+    | .ite c t es els, ws => do
+      let cj ← queryJ c ((ws.drop 1).take (plen c))
+      let tj ← queryJ t ((ws.drop (plen c + 2)).take (plen t))
+      let esLen := (printCat es).length
+      let ej ← elifsJ es ((ws.drop (plen c + plen t + 2)).take esLen)
+      let base := [("cond", cj), ("then", tj)] ++ (if ej.isEmpty then [] else [("elif", JV.arr ej)])
+      match els with
+      | none => pure (typed "TermTypeIf" [("if", o base)])
+      | some e => do
+        let elj ← queryJ e ((ws.drop (plen c + plen t + esLen + 3)).take (plen e))
+        pure (typed "TermTypeIf" [("if", o (base ++ [("else", elj)]))])
+    | .try_ b c, ws => do
+      let bj ← termJ b ((ws.drop 1).take (plen b))
+      match c with
+      | none => pure (typed "TermTypeTry" [("try", o [("body", o [("term", bj)])])])
+      | some c => do
+        let cj ← termJ c (ws.drop (plen b + 2))
+        pure (typed "TermTypeTry" [("try", o [("body", o [("term", bj)]), ("catch", o [("term", cj)])])])
+    | .reduce src p a b, ws => do
+      let sj ← queryJ src ((ws.drop 1).take (plen src))
+      let pj ← patJ p ((ws.drop (plen src + 2)).take (plen p))
+      let aj ← queryJ a ((ws.drop (plen src + plen p + 3)).take (plen a))
+      let bj ← queryJ b ((ws.drop (plen src + plen p + plen a + 4)).take (plen b))
+      pure (typed "TermTypeReduce" [("reduce", o [("query", sj), ("pattern", pj), ("start", aj), ("update", bj)])])
+    | .foreach src p a b c, ws => do
+      let sj ← queryJ src ((ws.drop 1).take (plen src))
+      let pj ← patJ p ((ws.drop (plen src + 2)).take (plen p))
+      let aj ← queryJ a ((ws.drop (plen src + plen p + 3)).take (plen a))
+      let bj ← queryJ b ((ws.drop (plen src + plen p + plen a + 4)).take (plen b))
+      let base := [("query", sj), ("pattern", pj), ("start", aj), ("update", bj)]
+      match c with
+      | none => pure (typed "TermTypeForeach" [("foreach", o base)])
+      | some c => do
+        let cj ← queryJ c ((ws.drop (plen src + plen p + plen a + plen b + 5)).take (plen c))
+        pure (typed "TermTypeForeach" [("foreach", o (base ++ [("extract", cj)]))])
+    | .brk s, _ => some (typed "TermTypeBreak" [("break", .str s)])
+    | .paren e, ws => do pure (typed "TermTypeQuery" [("query", ← queryJ e ((ws.drop 1).dropLast))])
+    | .opt t, ws => do pure (addSuffix (← termJ t (ws.take (plen t))) (o [("optional", .bool true)]))
+    | .sfxField t s, ws => do pure (addSuffix (← termJ t (ws.take (plen t))) (o [("index", o [("name", .str s)])]))
+    | .sfxStr t s, ws => do
+      pure (addSuffix (← termJ t (ws.take (plen t))) (o [("index", o [("str", ← strJ s (ws.drop (plen t + 1)))])]))
+    | .sfxBr t b, ws => do
+      pure (addSuffix (← termJ t (ws.take (plen t))) (← suffixBrJ b (ws.drop (plen t + 1))))
+    | _, _ => none
+  partial def queryJ : E → List String → Option JV
+    | .bin _ l r, ws => do
+      let lj ← queryJ l (ws.take (plen l))
+      let rj ← queryJ r (ws.drop (plen l + 1))
+      pure (o [("left", lj), ("op", .str ((ws.drop (plen l)).headD "")), ("right", rj)])
+    | .bind t ps b, ws => do
+      let tj ← termJ t (ws.take (plen t))
+      let pl := (printSep .destalt ps).length
+      let pj ← sepJ patJ ps ((ws.drop (plen t + 1)).take pl)
+      let bj ← queryJ b (ws.drop (plen t + pl + 2))
+      pure (o [("term", addSuffix tj (o [("bind", o [("patterns", .arr pj), ("body", bj)])]))])
+    | .label s b, ws => do
+      pure (o [("term", typed "TermTypeLabel" [("label", o [("ident", .str s), ("body", ← queryJ b (ws.drop 3))])])])
+    | .def_ n ps fb rest, ws => do
+      let hdr := if ps.isEmpty then 3 else 2 * ps.length + 4
+      let fbj ← queryJ fb ((ws.drop hdr).take (plen fb))
+      let rj ← queryJ rest (ws.drop (hdr + plen fb + 1))
+      let params : List JV := (List.range ps.length).map fun i => .str ((ws.drop (3 + 2 * i)).headD "")
+      let fd := o ([("name", JV.str n), ("body", fbj)] ++ (if ps.isEmpty then [] else [("args", JV.arr params)]))
+      match rj.get "func_defs" with
+      | .arr fds => pure (rj.set "func_defs" (.arr (fd :: fds)))
+      | _ => pure (rj.set "func_defs" (.arr [fd]))
+    | e, ws => do pure (o [("term", ← termJ e ws)])
 end
 
-def stepPP (toks : List String) (obs : JV) : String :=
-  match toks.mapM tokOfText with
+/-- beq of the two token types (derived DecidableEq) -/
+def sameToks (a b : List Tok) : Bool := decide (a = b)
+
+def stepPP (words : List String) (obs : JV) : String :=
+  match words.mapM tokOfText with
   | none => "BADOP pp-token"
   | some ts =>
-    let opTexts := toks.filter fun t => (opOfText t).isSome
-    let model : Option JV :=
-      match FqModel.C11.Print.parse ts with
-      | some e => match queryJ e opTexts with
-        | some (j, []) => some j
-        | _ => some (.str "model-conversion-failed")
-      | none => none
-    -- the printed form of what the model parsed must be the token line again (print is a left inverse on parser output)
-    let law : Option String :=
-      match FqModel.C11.Print.parse ts with
-      | some e =>
-        if FqModel.C11.Print.print e != ts then some "model-print-of-parse-differs"
-        else if !(FqModel.C11.Print.wf e) then some "model-parse-not-wellformed"
-        else none
-      | none => none
-    match law with
-    | some w => s!"BADOP {w}"
+    match parse ts with
     | none =>
-      match model, obs with
-      | none, .str "reject" => "OK"
-      | none, _ => "DIVERGE model=reject"
-      | some m, o => if m == o then "OK" else s!"DIVERGE model={clipStr m.encode}"
+      match obs with
+      | .str "reject" => "OK"
+      | _ => "DIVERGE model=reject"
+    | some e =>
+      -- the printed form of what the model parsed is the token line again, and the tree is well-formed
+      if !(sameToks (print e) ts) then "BADOP model-print-of-parse-differs"
+      else if !(wf e) then "BADOP model-parse-not-wellformed"
+      else if parse (print e) matches none then "BADOP model-reparse-fails"
+      else
+        match queryJ e words with
+        | none => "BADOP model-conversion-failed"
+        | some m => if m == obs then "OK" else s!"DIVERGE model={clipStr m.encode 1500}"
+
+end PP
 
 def stepC11 (op obs : String) : String :=
   match parseJson obs with
@@ -271,7 +428,7 @@ def stepC11 (op obs : String) : String :=
   | some o =>
     if o.hasKey "harness_error" then "BADOP harness-error" else
     match words op with
-    | "pp" :: toks => stepPP toks o
+    | "pp" :: toks => PP.stepPP toks o
     | ["rt", _] => stepRT o
     | ["ctor", name, h1, _] =>
       match hexText h1 with
